@@ -28,6 +28,9 @@ func initAllowed(path string) bool {
 		"encoding/base64", "internal/itoa", "internal/stringslite", "io/fs", "maps", "iter":
 		return true
 	}
+	if strings.HasPrefix(path, "github.com/cosmos/iavl/v2/") && path != "github.com/cosmos/iavl/v2/internal" && path != "github.com/cosmos/iavl/v2/metrics" {
+		return false // cmd, migrate, testutil: not executed
+	}
 	for _, p := range []string{"github.com/cosmos/iavl", "github.com/cosmos/ics23/go", "github.com/google/btree",
 		"cosmossdk.io/core", "cosmossdk.io/log"} {
 		if path == p || strings.HasPrefix(path, p+"/") {
@@ -69,6 +72,14 @@ func (m *Machine) lookupIntrinsic(fn *ssa.Function) intrinsic {
 		if strings.Contains(name, ".Register") {
 			return func(m *Machine, fr *frame, args []value) value { return nil }
 		}
+	case name == "github.com/cosmos/iavl/v2.NewInMemorySqliteDb" || name == "github.com/cosmos/iavl/v2.NewSqliteDb":
+		// C19: SQLite is not encodable; the kernels run with a database that stores nothing
+		return func(m *Machine, fr *frame, args []value) value {
+			t := m.namedType("github.com/cosmos/iavl/v2", "SqliteDb")
+			return tuple{m.newStructPtr(t), iface{}}
+		}
+	case strings.HasPrefix(name, "(*github.com/cosmos/iavl/v2.SqliteDb).") || strings.HasPrefix(name, "(*github.com/cosmos/iavl/v2.sqlWriter)."):
+		return func(m *Machine, fr *frame, args []value) value { return zeroResult(fn) }
 	case strings.HasPrefix(name, "text/template.") || strings.HasPrefix(name, "(*text/template.Template)."):
 		return func(m *Machine, fr *frame, args []value) value {
 			return zeroResult(fn)
@@ -431,6 +442,18 @@ func init() {
 		"(*sync.Mutex).Unlock": func(m *Machine, fr *frame, args []value) value { m.unlock(args[0].(*value)); return nil },
 		"(*sync.Mutex).TryLock": func(m *Machine, fr *frame, args []value) value {
 			return m.tryLock(args[0].(*value))
+		},
+		"(*sync.RWMutex).TryLock": func(m *Machine, fr *frame, args []value) value {
+			return m.tryLock(args[0].(*value))
+		},
+		"(*sync.RWMutex).TryRLock": func(m *Machine, fr *frame, args []value) value {
+			ls := m.lockOf(args[0].(*value))
+			if ls.writer {
+				return false
+			}
+			ls.readers++
+			m.locksHeld++
+			return true
 		},
 		"(*sync.RWMutex).Lock":    func(m *Machine, fr *frame, args []value) value { m.lock(args[0].(*value)); return nil },
 		"(*sync.RWMutex).Unlock":  func(m *Machine, fr *frame, args []value) value { m.unlock(args[0].(*value)); return nil },
